@@ -14,6 +14,7 @@
 package fschannel
 
 import (
+	"bytes"
 	"fmt"
 	"os"
 	"time"
@@ -93,13 +94,36 @@ func (f *rotateFile) Write(p []byte) (int, error) {
 	written := 0
 
 	for f.pos+int64(len(p)) > f.maxSize {
-		j := f.maxSize - int64(f.pos)
+		// j is the position of the last newline up to which the batch still fits
+		// into the current file (the newline itself is not written, the rotated
+		// file ends with a complete line); -1 when no complete line fits.
+		j := f.maxSize - f.pos
 
-		for ; j > 0; j-- {
+		for ; j >= 0; j-- {
 			// line endings windows?
 			if p[j] == '\n' {
 				break
 			}
+		}
+
+		if j < 0 {
+			if f.pos > 0 {
+				// nothing fits into the room that is left: start a new file
+				if err := f.rotate(); err != nil {
+					return written, err
+				}
+
+				continue
+			}
+
+			// the file is empty and the line is larger than the maximum size:
+			// it gets a file of its own
+			k := bytes.IndexByte(p, '\n')
+			if k < 0 {
+				break
+			}
+
+			j = int64(k)
 		}
 
 		n, err := f.f.Write(p[:j])
